@@ -192,6 +192,7 @@ type ProxyInst struct {
 	RunErr   error
 	stopOnce sync.Once
 	fence    *dialFence
+	Tag      string // set by laboratories that mark every message of an instance
 }
 
 // dialFence remembers the upstream connections of one proxy instance (the most recent few thousand).
